@@ -97,8 +97,13 @@ func (r *tr) kop(mode string) *kop {
 	for r.peek() == "F" {
 		r.next()
 		f := faultSpec{kind: kindName[r.i()], class: r.next(), name: r.next(), occ: r.i(), out: fErr}
-		if r.next() == "g" {
+		switch r.next() {
+		case "g":
 			f.out = fGone
+		case "G":
+			f.out, f.sticky = fGone, true
+		case "E":
+			f.sticky = true
 		}
 		op.faults = append(op.faults, f)
 	}
@@ -142,6 +147,8 @@ func (r *tr) kop(mode string) *kop {
 		op.h, op.h2 = r.i(), r.i()
 	case "rmtomb", "delhist":
 		op.h, op.before = r.i(), r.z()
+	case "walk":
+		op.before = r.z()
 	case "vacuum":
 		op.h, op.before = r.i(), r.z()
 		r.names()
